@@ -22,6 +22,7 @@ Template directives (lines starting with //@):
   //@item ALIAS :: struct|enum :: NAME
       //@rw ...
   //@enditem
+      //@slice a|b|c                  keep only the statements that mention one of these variables (vk/slicer.py, rule R-slice)
   //@pin ALIAS :: CONTAINER :: NAME :: sha256prefix    trusted spec stands for this body; hash of normalised text
   //@mutant NAME :: FN :: PROPS :: /regex/repl/        teeth: applied to the raw extracted text of FN
   //@glue ID :: ALIAS :: CONTAINER :: FN :: /first-line regex/ :: LINES :: sha256prefix
@@ -101,6 +102,7 @@ class Func:
         self.prologue = []
         self.epilogue = []
         self.whole = False
+        self.slice = None
         self.range_end = None
         self.kind = 'fn'
         self.tmpl_line = 0
@@ -386,6 +388,11 @@ def build_func(unit, f, grws):
         if n != 1 or new.count('\n') != text.count('\n'):
             raise ExtractError('mutant does not apply to %s' % where)
         text = new
+    if f.slice:
+        from .slicer import slice_text
+        text, ndrop, nkept, tracked = slice_text(text, f.slice)
+        unit.rule_counts['R-slice'] = unit.rule_counts.get('R-slice', 0) + ndrop
+        unit.dropped.append('%s: R-slice kept %d statement(s) mentioning %s, dropped %d' % (where, nkept, '/'.join(tracked), ndrop))
     for iname, iinfo in getattr(unit, 'inlines', []):
         text, napp = apply_inline(text, iname, iinfo)
         if napp:
@@ -622,6 +629,10 @@ def parse_template(path, mutation=None):
                 continue
             if d == 'noret':
                 cur.noret = True
+                continue
+            if d.startswith('slice '):
+                cur.slice = d[6:].strip()
+                section = None
                 continue
             if d.startswith('#'):
                 continue
